@@ -126,3 +126,12 @@ Theorem C02_enc_nonvacuous :
   /\ parse_section (emitSection 10 [1; 2; 3] ++ [4]) = Some (10, [1; 2; 3], [4]).
 Proof. vm_compute. repeat split; reflexivity. Qed.
 Print Assumptions C02_enc_nonvacuous.
+
+(* ---- which encoder an `i32.const` immediate needs.  The immediate is a SIGNED LEB128 integer: written with the unsigned
+   encoder, an address whose last 7-bit group has bit 6 set is read back negative.  This was the state of the tree for the
+   initialiser of the __data_end global and for data-segment offsets (repaired by 43ac19e): with 9000 bytes of string
+   literals after the data base 1024 the module declared __data_end = -6360. *)
+Theorem C02_enc_i32_const_unsigned_refuted :
+  decode_s32 (encodeU32 (1024 + 9000)) = Some (-6360, []) /\ decode_s32 (encodeS32 (1024 + 9000)) = Some (10024, []).
+Proof. vm_compute. split; reflexivity. Qed.
+Print Assumptions C02_enc_i32_const_unsigned_refuted.
